@@ -163,6 +163,14 @@ def solveSPD (M : Tab2 α) (r : Array α) : Option (Array α) :=
   | none => none
   | some rows => some (backSub n rows)
 
+/-- the pivots of the elimination (`d_k = minor_{k+1}/minor_k`); `none` unless all are positive -/
+def spdPivots (M : Tab2 α) : Option (List α) :=
+  let n := M.n
+  let aug : Array (Array α) := Array.ofFn (n := n) fun i => Array.ofFn (n := n) fun j => M.get i.val j.val
+  match elimLoop n n 0 aug with
+  | none => none
+  | some rows => some ((List.range n).map fun i => (rows.getD i #[]).getD i A.zero)
+
 /-- the exact minimiser of the objective (when the normal matrix is positive definite) -/
 def specFit (P : FitProblem α) : Option (Array α) := solveSPD (specM P) (specR P)
 
